@@ -78,7 +78,12 @@ FBetaPR(p, r, b1, b2) ==   \* p, r rationals
        b1 * b1 * Num(p) * Den(r) + b2 * b2 * Num(r) * Den(p) >>
 
 (* ROC-AUC by pair counting; s = scores (any integers preserving the order of the real
-   scores, e.g. dense ranks).  Doubled so that a tie counts 1. *)
+   scores, e.g. dense ranks).  Doubled so that a tie counts 1.  The definition uses the
+   ORDER of the scores only (two scores tie iff they are equal), so it is invariant under
+   every strictly increasing map (MetricsMC!AucOK); the harness therefore also feeds scores
+   far from unit scale -- k * 2^e with e = -70..40, and neighbouring floats 2^e + k ulps --
+   whose distinct values lie closer together than machine epsilon, and records their dense
+   ranks: an implementation that ties "nearly equal" scores is wrong there by O(1). *)
 Pos(a) == { i \in Idx(a) : a[i] = 1 }
 Neg(a) == { i \in Idx(a) : a[i] = 0 }
 AUC(a, s) ==
